@@ -89,6 +89,7 @@ inductive ApiOp where
   | emptyAlt (idx : Nat)
   | emptyBlockAlt (idx : Nat)
   | finishFunc                           -- `get_fn_modifier` / `finish_instr` on the function flag
+  | clear (idx : Nat) (m : Mode)         -- `clear_instr_at`: empties the list of that mode at that instruction
 deriving Repr
 
 /-- `none` = the API call panics -/
@@ -121,6 +122,19 @@ def apply (f : Func) : ApiOp → Option Func
   | .emptyAlt idx =>
     match f.body[idx]? with
     | some _ => some { f with body := modifyAt f.body idx (fun i => { i with alt := some [] }) }
+    | none => none
+  | .clear idx m =>
+    match f.body[idx]? with
+    | some _ =>
+      some { f with body := modifyAt f.body idx (fun i =>
+        match m with
+        | .before => { i with before := [] }
+        | .after => { i with after := [] }
+        | .alternate => { i with alt := none }
+        | .semanticAfter => { i with semAfter := [] }
+        | .blockEntry => { i with blockEntry := [] }
+        | .blockExit => { i with blockExit := [] }
+        | .blockAlt => { i with blockAlt := none }) }
     | none => none
   | .emptyBlockAlt idx =>
     match f.body[idx]? with
